@@ -4,7 +4,7 @@ CONSTANTS
   Peers = {1, 2, 3}
   MaxEpoch = 3
   Umasks = {18}
-  DkgDbPerm = 432
+  DkgDbPerm = 384
   ChainDbPerm = 432
   PreModes = {420}
 INVARIANT AtEnd
